@@ -160,11 +160,48 @@ theorem window_is_slice (ra : Raster κ τ) (t b l r : Nat) (name : String)
     have hj' : j < r - l + 1 := by omega
     simp [hj']
 
-/-- the empty window has no cell and no coordinate, and still the raster's attrs -/
+/-- *every* coordinate variable of the raster -- scalar coordinates, the dimension coordinates with their attrs, extra
+    1-D coordinates along one dimension, 2-D auxiliary coordinates -- reappears in the window: the same variables in the
+    same order, each under its name, with its own attrs and its own dimensions, and its labels are the original's at the
+    same positions (restricted along the dimensions it has, untouched along the others) -/
+theorem window_coords_are_slices (ra : Raster κ τ) (t b l r : Nat) (name : String)
+    (htb : t ≤ b) (hb : b < ra.rows) (hlr : l ≤ r) (hr : r < ra.cols) :
+    let w := window ra ⟨t, b, l, r⟩ name
+    w.coords.length = ra.coords.length
+    ∧ ∀ (k : Nat) (c : Coord κ τ), ra.coords[k]? = some c →
+        ∃ wc : WCoord κ τ, w.coords[k]? = some wc ∧ wc.name = c.name ∧ wc.onY = c.onY ∧ wc.onX = c.onX ∧ wc.attrs = c.attrs
+          ∧ wc.vals.length = (if c.onY then b - t + 1 else 1)
+          ∧ ∀ i, i < (if c.onY then b - t + 1 else 1) →
+              ∃ row, wc.vals[i]? = some row ∧ row.length = (if c.onX then r - l + 1 else 1)
+                ∧ ∀ j, j < (if c.onX then r - l + 1 else 1) →
+                    row[j]? = some (c.val (if c.onY then t + i else 0) (if c.onX then l + j else 0)) := by
+  intro w
+  have h1 : min (b + 1) ra.rows - t = b - t + 1 := by omega
+  have h2 : min (r + 1) ra.cols - l = r - l + 1 := by omega
+  simp only [w, window, sliceIdx_nat, h1, h2]
+  refine ⟨by simp, ?_⟩
+  intro k c hk
+  refine ⟨c.restrict (List.range' t (b - t + 1)) (List.range' l (r - l + 1)), by simp [hk], rfl, rfl, rfl, rfl, ?_, ?_⟩
+  · cases hy : c.onY <;> simp [Coord.restrict, hy]
+  · intro i hi
+    cases hy : c.onY <;> cases hx : c.onX <;> simp only [hy, if_true, if_false, Bool.false_eq_true] at hi ⊢
+    all_goals
+      refine ⟨_, by simp [Coord.restrict, hy, hx, hi]; rfl, by simp, ?_⟩
+      intro j hj
+      simp [hj]
+
+/-- the empty window has no cell and no label, and still the raster's attrs; every coordinate variable is still there
+    with its name and attrs, empty along the dimensions it has (a scalar coordinate keeps its value) -/
 theorem window_empty (ra : Raster κ τ) (name : String) :
     let w := window ra ⟨0, -1, 0, -1⟩ name
-    w.cells = [] ∧ w.ys = [] ∧ w.xs = [] ∧ w.attrs = ra.attrs ∧ w.name = name := by
-  simp [window, sliceIdx]
+    w.cells = [] ∧ w.ys = [] ∧ w.xs = [] ∧ w.attrs = ra.attrs ∧ w.name = name
+    ∧ w.coords = ra.coords.map fun c => ⟨c.name, c.onY, c.onX,
+        (if c.onY then [] else [if c.onX then [] else [c.val 0 0]]), c.attrs⟩ := by
+  simp only [window, sliceIdx, Coord.restrict]
+  refine ⟨by simp, by simp, by simp, by simp, by simp, ?_⟩
+  apply List.map_congr_left
+  intro c _
+  cases c.onY <;> cases c.onX <;> simp
 
 /-! ### trim and crop -/
 
@@ -433,11 +470,18 @@ theorem boundsAsIs_no_hit (rows cols : Nat) (hit : Nat → Nat → Bool) (hr : 0
 
 /-- a 3×4 raster with kept cells (value 5) at (1,1) and (2,2), everything else NaN -/
 def exRaster : Raster Nat String :=
-  ⟨3, 4, fun y x => if (y = 1 ∧ x = 1) ∨ (y = 2 ∧ x = 2) then Num.fin 5 else Num.nan, fun y => 10 + y, fun x => 20 + x, "attrs"⟩
+  ⟨3, 4, fun y x => if (y = 1 ∧ x = 1) ∨ (y = 2 ∧ x = 2) then Num.fin 5 else Num.nan, fun y => 10 + y, fun x => 20 + x, "attrs",
+   [⟨"spatial_ref", false, false, fun _ _ => 0, "crs"⟩, ⟨"y", true, false, fun y _ => 10 + y, "units=m"⟩,
+    ⟨"lon", true, true, fun y x => 100 * y + x, "degrees_east"⟩, ⟨"col_km", false, true, fun _ x => 7 * x, ""⟩]⟩
 
 example : trimBounds exRaster [Num.nan] = ⟨1, 2, 1, 2⟩ := by decide
 example : (trim exRaster [Num.nan]).cells = [[Num.fin 5, Num.nan], [Num.nan, Num.fin 5]]
     ∧ (trim exRaster [Num.nan]).ys = [11, 12] ∧ (trim exRaster [Num.nan]).xs = [21, 22] := by decide
+/-- the coordinate variables of the example (a scalar one, the y dimension coordinate with attrs, a 2-D auxiliary one, an
+    extra 1-D one along x) restricted to the window rows 1..2 × columns 1..2 -/
+example : (trim exRaster [Num.nan]).coords.map (fun c => (c.name, c.vals, c.attrs))
+    = [("spatial_ref", [[0]], "crs"), ("y", [[11], [12]], "units=m"), ("lon", [[101, 102], [201, 202]], "degrees_east"),
+       ("col_km", [[7, 14]], "")] := by decide
 example : cropBounds exRaster [Num.fin 5] = ⟨1, 2, 1, 2⟩ := by decide
 example : trimBounds exRaster [Num.nan, Num.fin 5] = ⟨0, -1, 0, -1⟩ := by decide
 example : (windowS Gen.trimKernel Gen.trimWrapper exRaster exRaster [Num.nan] "t").cells
